@@ -33,3 +33,6 @@ func c01WithMapOrders(c *core.Ctx, dir string, k c01Case) {
 
 // setProcOrder: the order of every map range inside csvq for the code run in this process ("" ascending, "rev" descending)
 func setProcOrder(spec string, on bool) { vrt.SetProcOrder(spec, on) }
+
+// procCalls: the number of map ranges over two or more keys since the order was set
+func procCalls() int64 { return vrt.ProcCalls() }
